@@ -592,8 +592,14 @@ class Fxp():
             # max raw value (integer) estimation
             # n_int = max( np.ceil(np.log2(np.max(np.abs( val*(1 << n_frac) + 0.5 )))).astype(int_dtype) - n_frac, 0)
             
-            val_max = int(np.max(val)*(1 << n_frac))
-            val_min = int(np.min(val)*(1 << n_frac))
+            val_max, val_min = np.max(val), np.min(val)
+            if isinstance(val_max, (int, np.integer)) and isinstance(val_min, (int, np.integer)):
+                # (integers are scaled as python integers: 64 bits integers would overflow)
+                val_max = int(val_max) * (1 << n_frac)
+                val_min = int(val_min) * (1 << n_frac)
+            else:
+                val_max = int(val_max*(1 << n_frac))
+                val_min = int(val_min*(1 << n_frac))
             n_int = 0
             while n_int < n_word_max - sign + n_frac:     # (bits of the value scaled by 2**n_frac)
                 msb_max = (val_max >> n_int) + (1 if val_max < 0 else 0)
